@@ -1,1 +1,164 @@
-//! placeholder
+//! Process-level monitor: run the real `cteepbd` binary under a watchdog and classify how it ended.
+
+use std::io::Read;
+use std::path::{Path, PathBuf};
+use std::process::{Command, Stdio};
+use std::sync::atomic::{AtomicU64, Ordering};
+use std::time::{Duration, Instant};
+
+#[derive(Debug, Clone, Default)]
+pub struct RunResult {
+    pub code: Option<i32>,
+    pub signal: Option<i32>,
+    pub timed_out: bool,
+    pub stdout: String,
+    pub stderr: String,
+    pub wall_ms: u128,
+    pub spawn_error: Option<String>,
+}
+
+static COUNTER: AtomicU64 = AtomicU64::new(0);
+
+pub fn scratch_root() -> PathBuf {
+    let base = std::env::var("VERIF_DIR").unwrap_or_else(|_| "/verif".into());
+    PathBuf::from(base).join(".build").join("scratch")
+}
+
+/// a fresh empty directory for the files of one process-level case
+pub fn scratch_dir(tag: &str) -> PathBuf {
+    let n = COUNTER.fetch_add(1, Ordering::Relaxed);
+    let d = scratch_root().join(format!("{}-{}-{}", tag, std::process::id(), n));
+    let _ = std::fs::create_dir_all(&d);
+    d
+}
+
+/// Run `bin args`, draining stdout and stderr completely; kill after `timeout_ms`.
+pub fn run(bin: &Path, args: &[String], timeout_ms: u64) -> RunResult {
+    run_with(bin, args, timeout_ms, None)
+}
+
+pub fn run_with(bin: &Path, args: &[String], timeout_ms: u64, wrapper: Option<&[String]>) -> RunResult {
+    let t0 = Instant::now();
+    let mut cmd = match wrapper {
+        Some(w) if !w.is_empty() => {
+            let mut c = Command::new(&w[0]);
+            c.args(&w[1..]);
+            c.arg(bin);
+            c
+        }
+        _ => Command::new(bin),
+    };
+    cmd.args(args).stdin(Stdio::null()).stdout(Stdio::piped()).stderr(Stdio::piped());
+    cmd.env("RUST_BACKTRACE", "0");
+    let mut child = match cmd.spawn() {
+        Ok(c) => c,
+        Err(e) => return RunResult { spawn_error: Some(e.to_string()), ..Default::default() },
+    };
+    let mut so = child.stdout.take().unwrap();
+    let mut se = child.stderr.take().unwrap();
+    let h1 = std::thread::spawn(move || {
+        let mut b = Vec::new();
+        let _ = so.read_to_end(&mut b);
+        b
+    });
+    let h2 = std::thread::spawn(move || {
+        let mut b = Vec::new();
+        let _ = se.read_to_end(&mut b);
+        b
+    });
+    let deadline = t0 + Duration::from_millis(timeout_ms);
+    let mut timed_out = false;
+    let mut sleep_us = 200u64;
+    let status = loop {
+        match child.try_wait() {
+            Ok(Some(st)) => break Some(st),
+            Ok(None) => {
+                if Instant::now() >= deadline {
+                    timed_out = true;
+                    let _ = child.kill();
+                    break child.wait().ok();
+                }
+                std::thread::sleep(Duration::from_micros(sleep_us));
+                sleep_us = (sleep_us * 2).min(5_000);
+            }
+            Err(_) => break None,
+        }
+    };
+    let stdout = String::from_utf8_lossy(&h1.join().unwrap_or_default()).to_string();
+    let stderr = String::from_utf8_lossy(&h2.join().unwrap_or_default()).to_string();
+    let (code, signal) = match status {
+        Some(st) => {
+            #[cfg(unix)]
+            {
+                use std::os::unix::process::ExitStatusExt;
+                (st.code(), st.signal())
+            }
+            #[cfg(not(unix))]
+            {
+                (st.code(), None)
+            }
+        }
+        None => (None, None),
+    };
+    RunResult { code, signal: if timed_out { None } else { signal }, timed_out, stdout, stderr, wall_ms: t0.elapsed().as_millis(), spawn_error: None }
+}
+
+/// split a text into (non-numeric text, number) tokens
+fn tokens(s: &str) -> Vec<(String, Option<f64>)> {
+    let mut out = vec![];
+    let mut cur = String::new();
+    let b: Vec<char> = s.chars().collect();
+    let mut i = 0;
+    while i < b.len() {
+        let c = b[i];
+        let starts_num = c.is_ascii_digit() || (c == '-' && i + 1 < b.len() && b[i + 1].is_ascii_digit() && (i == 0 || !b[i - 1].is_alphanumeric()));
+        if starts_num && (i == 0 || !(b[i - 1].is_alphanumeric() || b[i - 1] == '_')) {
+            let mut j = i + 1;
+            while j < b.len() && (b[j].is_ascii_digit() || b[j] == '.') {
+                j += 1;
+            }
+            let txt: String = b[i..j].iter().collect();
+            if let Ok(x) = txt.trim_end_matches('.').parse::<f64>() {
+                out.push((std::mem::take(&mut cur), Some(x)));
+                if txt.ends_with('.') {
+                    cur.push('.');
+                }
+                i = j;
+                continue;
+            }
+        }
+        cur.push(c);
+        i += 1;
+    }
+    out.push((cur, None));
+    out
+}
+
+/// same text, numbers within `atol` (absolute) or 1e-5 relative; "-0.00" equals "0.00"
+pub fn reports_equal(a: &str, b: &str, atol: f64) -> bool {
+    let (ta, tb) = (tokens(a), tokens(b));
+    if ta.len() != tb.len() {
+        return false;
+    }
+    for (x, y) in ta.iter().zip(tb.iter()) {
+        // a sign that flips around zero changes the text token by a '-': compare texts without it
+        if x.0 != y.0 {
+            return false;
+        }
+        match (x.1, y.1) {
+            (None, None) => {}
+            (Some(p), Some(q)) => {
+                if (p - q).abs() > atol + 1e-5 * p.abs().max(q.abs()) {
+                    return false;
+                }
+            }
+            _ => return false,
+        }
+    }
+    true
+}
+
+/// all numbers of a text, in order
+pub fn numbers(s: &str) -> Vec<f64> {
+    tokens(s).into_iter().filter_map(|t| t.1).collect()
+}
